@@ -22,22 +22,30 @@ type srec struct {
 	File    string
 	Line    string
 	Vars    [3]string
+	FS      string // the FS in force when the record was read ("" = the default)
+	Input   string // the operand the record came from (FILENAME unless somebody assigned it since)
 }
 
 var reAssign = regexp.MustCompile(`^([_a-zA-Z][_a-zA-Z0-9]*)=(.*)`)
 
 // specStream: the records of the main input in order. fatal = an operand names a file that does not exist (records
 // before it are still delivered).
-func specStream(args []string, stdin []string, files map[string][]string) (recs []srec, fatal bool, final srec) {
+//
+// initFile / initFS: FILENAME and FS as BEGIN (or -v) left them. FILENAME is whatever was assigned last — by `setFile` when an
+// input is opened, or by a FILENAME=… operand; neither it nor any other variable decides WHICH inputs are read: `had` is set
+// by operands that name an input, and by nothing else. A record carries the FS in force when it was read.
+func specStream(args []string, stdin []string, files map[string][]string, initFile, initFS string) (recs []srec, fatal bool, final srec) {
 	var vars [3]string
 	nr := 0
 	had := false
+	fs := initFS
+	final.File = initFile
 	add := func(name string, rs []string) {
-		final.File, final.FNR = name, len(rs)
+		final.File, final.FNR, final.Input = name, len(rs), name
 		for i, r := range rs {
 			nr++
-			recs = append(recs, srec{nr, i + 1, name, r, vars})
-			final.Line = r
+			recs = append(recs, srec{nr, i + 1, name, r, vars, fs, name})
+			final.Line, final.FS = r, fs
 		}
 	}
 	defer func() { final.NR, final.Vars = nr, vars }()
@@ -47,6 +55,12 @@ func specStream(args []string, stdin []string, files map[string][]string) (recs 
 				if n == m[1] {
 					vars[i] = m[2]
 				}
+			}
+			switch m[1] {
+			case "FILENAME":
+				final.File = m[2]
+			case "FS":
+				fs = m[2]
 			}
 			continue
 		}
@@ -99,6 +113,60 @@ func evalCond(c *Cond, r srec) bool {
 
 func nfOf(s string) int { return len(strings.Fields(s)) }
 
+// nfWith: the field count under a single-byte FS (" " or "" = the default splitting)
+func nfWith(fs, s string) int {
+	switch {
+	case fs == "" || fs == " ":
+		return nfOf(s)
+	case s == "":
+		return 0
+	}
+	return strings.Count(s, fs) + 1
+}
+
+// hasOp: the program contains an operation of that kind
+func hasOp(cs *Case, kind string) bool {
+	var walk func(ops []Op) bool
+	walk = func(ops []Op) bool {
+		for _, o := range ops {
+			if o.K == kind || walk(o.Body) {
+				return true
+			}
+		}
+		return false
+	}
+	for _, r := range cs.Rules {
+		if walk(r.Body) {
+			return true
+		}
+	}
+	return walk(cs.Begin) || walk(cs.End)
+}
+
+// touchesFS: FS is assigned somewhere (by an operand, an ARGV element written by the program, or the program)
+func touchesFS(cs *Case) bool {
+	for _, a := range cs.Args {
+		if strings.HasPrefix(a, "FS=") {
+			return true
+		}
+	}
+	var walk func(ops []Op) bool
+	walk = func(ops []Op) bool {
+		for _, o := range ops {
+			if o.K == "sfs" || (o.K == "sa" && strings.HasPrefix(o.S, "FS=")) || walk(o.Body) {
+				return true
+			}
+		}
+		return false
+	}
+	for _, r := range cs.Rules {
+		if walk(r.Body) {
+			return true
+		}
+	}
+	return walk(cs.Begin) || walk(cs.End)
+}
+
 // pureBody: the body consists of emits, conditionals, calls, counted loops and next / nextfile only — its effect on one
 // record is a function of the record (no getline, exit, ARGV edit, close)
 func pureBody(ops []Op) bool {
@@ -121,7 +189,7 @@ func pureBody(ops []Op) bool {
 func emitOnly(cs *Case) bool {
 	only := func(ops []Op, allowArgv bool) bool {
 		for _, o := range ops {
-			if o.K == "e" || (allowArgv && (o.K == "sa" || o.K == "sc")) {
+			if o.K == "e" || (allowArgv && (o.K == "sa" || o.K == "sc" || o.K == "sf" || o.K == "sfs")) {
 				continue
 			}
 			return false
@@ -200,7 +268,7 @@ func applyArgvEdits(cs *Case) []string {
 }
 
 func fmtE(tag int, r srec) string {
-	return fmt.Sprintf("E:%d:%d:%d:%s:%s:%d:%s,%s,%s", tag, r.NR, r.FNR, vh.HxS(r.File), vh.HxS(r.Line), nfOf(r.Line),
+	return fmt.Sprintf("E:%d:%d:%d:%s:%s:%d:%s,%s,%s", tag, r.NR, r.FNR, vh.HxS(r.File), vh.HxS(r.Line), nfWith(r.FS, r.Line),
 		vh.HxS(r.Vars[0]), vh.HxS(r.Vars[1]), vh.HxS(r.Vars[2]))
 }
 
@@ -209,11 +277,16 @@ func flatExpected(cs *Case) (want string, fatal bool) {
 	var parts []string
 	zero := srec{}
 	for _, o := range cs.Begin {
-		if o.K == "e" {
+		switch o.K {
+		case "e":
 			parts = append(parts, fmtE(o.N, zero))
+		case "sf":
+			zero.File = o.S
+		case "sfs":
+			zero.FS = o.S
 		}
 	}
-	recs, fatal, final := specStream(applyArgvEdits(cs), cs.Stdin, cs.Files)
+	recs, fatal, final := specStream(applyArgvEdits(cs), cs.Stdin, cs.Files, zero.File, zero.FS)
 	// per range rule: the pattern values of the records that reached the rule so far (a record abandoned by an earlier rule
 	// does not reach it); selection is positional over that history: some j <= i satisfies b and nothing in j..i-1 satisfies e
 	type be struct{ b, e bool }
@@ -271,8 +344,8 @@ func flatExpected(cs *Case) (want string, fatal bool) {
 	}
 	final.NR -= skipped
 	if lastDelivered != nil {
-		final.Line = lastDelivered.Line
-		if n := len(recs); skipFile && final.File == recs[n-1].File && final.FNR == recs[n-1].FNR {
+		final.Line, final.FS = lastDelivered.Line, lastDelivered.FS
+		if n := len(recs); skipFile && final.Input == recs[n-1].Input && final.FNR == recs[n-1].FNR {
 			final.FNR = lastDelivered.FNR // the tail of the last input was skipped: FNR stopped there
 		}
 	}
@@ -308,6 +381,9 @@ func oracle(cs *Case, r result) []finding {
 		}
 		return fs
 	}
+	if cs.Sp != nil {
+		return specialOracle(cs, r)
+	}
 	evs := r.evs
 	if emitOnly(cs) {
 		want, fatal := flatExpected(cs)
@@ -320,6 +396,8 @@ func oracle(cs *Case, r result) []finding {
 		}
 		return fs
 	}
+	fsTouched := touchesFS(cs)
+	fnTouched := hasOp(cs, "sf")
 	hasTick := len(cs.Rules) > 0 && cs.Rules[0].Pat == "a" && len(cs.Rules[0].Body) == 1 && cs.Rules[0].Body[0].K == "e" && cs.Rules[0].Body[0].N == 0
 	// ---- dynamic clauses
 	ticks, gl := 0, 0
@@ -342,7 +420,7 @@ func oracle(cs *Case, r result) []finding {
 						fmt.Sprintf("event %d: NR=%d", i, e.NR), fmt.Sprintf("%d+%d", ticks, gl))
 				}
 			}
-			if e.NF != nfOf(e.Line) {
+			if !fsTouched && e.NF != nfOf(e.Line) {
 				fail("NF does not belong to $0", fmt.Sprintf("event %d: NF=%d $0=%q", i, e.NF, e.Line), "")
 			}
 			if exits > 0 && e.Tag < 900 {
@@ -373,7 +451,7 @@ func oracle(cs *Case, r result) []finding {
 			if hasTick && i > 0 && i+1 < len(evs) && evs[i-1].Kind == "E" && evs[i+1].Kind == "E" {
 				a, b := evs[i-1], evs[i+1]
 				if b.Tag != 0 && zone(a.Tag) == zone(b.Tag) { // otherwise the main loop read a record in between
-					if msg := getlineFrame(e.Tag, e.Ret, a, b); msg != "" {
+					if msg := getlineFrame(e.Tag, e.Ret, a, b, fnTouched); msg != "" {
 						fail("getline form "+fmt.Sprint(e.Tag)+": "+msg, evString(b), evString(a))
 					}
 				}
@@ -430,7 +508,11 @@ func zone(tag int) int {
 func evString(e Ev) string { return canonEvents([]Ev{e}) }
 
 // getlineFrame: what a getline of the given form may change between the emit before (a) and the emit after (b)
-func getlineFrame(form, ret int, a, b Ev) string {
+// (fnTouched: the program itself assigns FILENAME somewhere, possibly between the two emits — FILENAME is then not compared)
+func getlineFrame(form, ret int, a, b Ev, fnTouched bool) string {
+	if fnTouched {
+		b.Filename = a.Filename
+	}
 	sameRec := a.Line == b.Line && a.NF == b.NF
 	samePos := a.NR == b.NR && a.FNR == b.FNR && a.Filename == b.Filename
 	changedVars := 0
